@@ -1,5 +1,440 @@
 package mw
 
-import "verif/harness/simkit"
+import (
+	"bytes"
+	"context"
+	"errors"
+	"fmt"
+	"io"
+	"os"
+	"path"
+	"path/filepath"
+	"runtime/debug"
+	"sort"
+	"strings"
+	"sync"
+	"time"
 
-func runC16(x *simkit.Exec) { x.Troublef("not implemented") }
+	"github.com/go-kit/log"
+	"github.com/oklog/ulid/v2"
+	"github.com/prometheus/client_golang/prometheus"
+	dto "github.com/prometheus/client_model/go"
+	"github.com/prometheus/common/promslog"
+	"github.com/prometheus/prometheus/model/histogram"
+	"github.com/prometheus/prometheus/model/labels"
+	"github.com/prometheus/prometheus/storage"
+	"github.com/prometheus/prometheus/tsdb"
+	"github.com/prometheus/prometheus/tsdb/chunkenc"
+	"github.com/prometheus/prometheus/tsdb/chunks"
+	"github.com/thanos-io/objstore"
+
+	"github.com/thanos-io/thanos/pkg/block/indexheader"
+	"github.com/thanos-io/thanos/pkg/block/metadata"
+	"github.com/thanos-io/thanos/pkg/verifhook"
+
+	"verif/harness/simkit"
+)
+
+type c16Sample struct {
+	t int64
+	v float64
+}
+
+func (s c16Sample) T() int64                      { return s.t }
+func (s c16Sample) F() float64                    { return s.v }
+func (s c16Sample) H() *histogram.Histogram       { return nil }
+func (s c16Sample) FH() *histogram.FloatHistogram { return nil }
+func (s c16Sample) Type() chunkenc.ValueType      { return chunkenc.ValFloat }
+func (s c16Sample) Copy() chunks.Sample           { return s }
+
+func c16ULID(n uint64) ulid.ULID {
+	var u ulid.ULID
+	_ = u.SetTime(946684800000)
+	for i := 0; i < 8; i++ {
+		u[15-i] = byte(n >> (8 * i))
+	}
+	return u
+}
+
+// ---- C16: lazy index headers stay correct under concurrent idle unloading ------------------------
+
+// c16Block is one real TSDB block (built once per process, outside any bubble) kept as bytes.
+type c16Block struct {
+	id     ulid.ULID
+	index  []byte
+	m      *metadata.Meta
+	names  []string            // label names, sorted (from the spec)
+	values map[string][]string // label name -> sorted values (from the spec)
+}
+
+var (
+	c16Mu     sync.Mutex
+	c16Blocks = map[int]*c16Block{}
+)
+
+func c16Spec(variant int) []map[string]string {
+	var out []map[string]string
+	nMetrics, nJobs, nInst := 1+variant%3, 1+variant%2, 2+variant
+	for m := 0; m < nMetrics; m++ {
+		for j := 0; j < nJobs; j++ {
+			for i := 0; i < nInst; i++ {
+				l := map[string]string{"__name__": fmt.Sprintf("metric_%d", m), "job": fmt.Sprintf("job-%d", j), "instance": fmt.Sprintf("host%02d:9100", i)}
+				if (i+m)%2 == 0 {
+					l["zone"] = fmt.Sprintf("z%d", i%3)
+				}
+				out = append(out, l)
+			}
+		}
+	}
+	return out
+}
+
+func c16GetBlock(variant int) (*c16Block, error) {
+	c16Mu.Lock()
+	defer c16Mu.Unlock()
+	if b := c16Blocks[variant]; b != nil {
+		return b, nil
+	}
+	base := os.Getenv("VERIF_SCRATCH")
+	if base == "" {
+		base = filepath.Join(os.TempDir(), "verif-scratch")
+	}
+	if err := os.MkdirAll(base, 0o755); err != nil {
+		return nil, err
+	}
+	// the index bytes are a pure function of the variant: share them between worker processes
+	cache := filepath.Join(base, fmt.Sprintf("mw-c16-index-v1-%d", variant))
+	cached, _ := os.ReadFile(cache)
+	parent, err := os.MkdirTemp(base, "mw-c16-fixture-")
+	if err != nil {
+		return nil, err
+	}
+	defer os.RemoveAll(parent)
+	b := &c16Block{id: c16ULID(uint64(1600+variant)), values: map[string][]string{}}
+	vals := map[string]map[string]bool{}
+	var series []storage.Series
+	specs := c16Spec(variant)
+	sort.Slice(specs, func(i, j int) bool { return labels.Compare(labels.FromMap(specs[i]), labels.FromMap(specs[j])) < 0 })
+	for _, l := range specs {
+		series = append(series, storage.NewListSeries(labels.FromMap(l), []chunks.Sample{c16Sample{1000, 1}, c16Sample{2000, 2}}))
+		for k, v := range l {
+			if vals[k] == nil {
+				vals[k] = map[string]bool{}
+			}
+			vals[k][v] = true
+		}
+	}
+	for k, vs := range vals {
+		b.names = append(b.names, k)
+		for v := range vs {
+			b.values[k] = append(b.values[k], v)
+		}
+		sort.Strings(b.values[k])
+	}
+	sort.Strings(b.names)
+	if len(cached) > 0 {
+		b.index = cached
+	} else {
+		dir, err := tsdb.CreateBlock(series, parent, 7200000, promslog.NewNopLogger())
+		if err != nil {
+			return nil, err
+		}
+		if b.index, err = os.ReadFile(filepath.Join(dir, "index")); err != nil {
+			return nil, err
+		}
+		tmp := filepath.Join(parent, "index.cache")
+		if os.WriteFile(tmp, b.index, 0o644) == nil {
+			_ = os.Rename(tmp, cache)
+		}
+	}
+	b.m = &metadata.Meta{}
+	b.m.ULID = b.id
+	b.m.MinTime, b.m.MaxTime = 0, 7200000
+	c16Blocks[variant] = b
+	return b, nil
+}
+
+var errC16Injected = errors.New("injected bucket read failure")
+
+// c16Bucket is a plain in-memory bucket whose reads can fail by a hash-derived decision. It never
+// parks: the lazy reader performs its bucket reads while holding its write lock.
+type c16Bucket struct {
+	*objstore.InMemBucket
+	s *simkit.Sim
+}
+
+func (b *c16Bucket) GetRange(ctx context.Context, name string, off, length int64) (io.ReadCloser, error) {
+	if b.s != nil && b.s.Fault("err:bucket:getrange", b.s.OpID("bucket", "getrange", path.Base(name))) {
+		return nil, errC16Injected
+	}
+	return b.InMemBucket.GetRange(ctx, name, off, length)
+}
+
+type c16Call struct {
+	kind   int
+	name   string
+	values []string
+	off    uint32
+}
+
+func (c c16Call) String() string {
+	switch c.kind {
+	case 0:
+		return "LabelNames()"
+	case 1:
+		return fmt.Sprintf("LabelValues(%q)", c.name)
+	case 2:
+		return fmt.Sprintf("PostingsOffsets(%q, %q)", c.name, c.values)
+	case 3:
+		return fmt.Sprintf("PostingsOffset(%q, %q)", c.name, c.values[0])
+	case 4:
+		return fmt.Sprintf("LookupSymbol(%d)", c.off)
+	}
+	return "IndexVersion()"
+}
+
+func (c c16Call) method() string {
+	return [...]string{"LabelNames", "LabelValues", "PostingsOffsets", "PostingsOffset", "LookupSymbol", "IndexVersion"}[c.kind]
+}
+
+// c16Do performs the call and renders value and error. Rendering copies every string at once: the
+// values returned by a memory-mapped header point into the mapping.
+func c16Do(ctx context.Context, r indexheader.Reader, c c16Call) (string, error) {
+	switch c.kind {
+	case 0:
+		v, err := r.LabelNames()
+		return fmt.Sprintf("%q", v), err
+	case 1:
+		v, err := r.LabelValues(c.name)
+		return fmt.Sprintf("%q", v), err
+	case 2:
+		v, err := r.PostingsOffsets(c.name, c.values...)
+		return fmt.Sprintf("%v", v), err
+	case 3:
+		v, err := r.PostingsOffset(c.name, c.values[0])
+		return fmt.Sprintf("%v", v), err
+	case 4:
+		v, err := r.LookupSymbol(ctx, c.off)
+		return fmt.Sprintf("%q", v), err
+	}
+	v, err := r.IndexVersion()
+	return fmt.Sprintf("%d", v), err
+}
+
+func c16Render(v string, err error) string {
+	if err != nil {
+		return "error: " + err.Error()
+	}
+	return v
+}
+
+func runC16(x *simkit.Exec) {
+	x.PanicInvariant = "no-read-after-close"
+	variant := x.Draw("block", 4)
+	blk, err := c16GetBlock(variant)
+	if err != nil {
+		x.Troublef("c16 fixture: %v", err)
+		return
+	}
+	sampling := []int{32, 1, 2, 3}[x.Draw("sampling", 4)]
+	lazyDownload := x.Bool("lazydownload", 1, 2)
+	faultsOn := lazyDownload && x.Bool("faults", 1, 3)
+	idle := []time.Duration{100 * time.Millisecond, time.Second, 5 * time.Minute}[x.Draw("idle", 3)]
+	nReaders := x.Range("readers", 2, 4)
+	ctx0 := context.Background()
+
+	// the always-loaded reference: an in-memory BinaryReader over the same index (never unmapped)
+	raw := objstore.NewInMemBucket()
+	_ = raw.Upload(ctx0, path.Join(blk.id.String(), "index"), bytes.NewReader(blk.index))
+	ref, err := indexheader.NewBinaryReader(ctx0, log.NewNopLogger(), raw, "", blk.id, sampling, indexheader.NewBinaryReaderMetrics(nil))
+	if err != nil {
+		x.Troublef("c16 reference reader: %v", err)
+		return
+	}
+	defer ref.Close()
+	// sanity of the fixture against its specification (harness matter, not C16)
+	if got, _ := ref.LabelNames(); fmt.Sprint(got) != fmt.Sprint(blk.names) {
+		x.Troublef("c16 fixture: reference LabelNames %v, spec %v", got, blk.names)
+		return
+	}
+	for _, n := range blk.names {
+		if got, _ := ref.LabelValues(n); fmt.Sprint(got) != fmt.Sprint(blk.values[n]) {
+			x.Troublef("c16 fixture: reference LabelValues(%s) %v, spec %v", n, got, blk.values[n])
+			return
+		}
+	}
+	nsym := 0
+	for ; nsym < 4096; nsym++ {
+		if _, err := ref.LookupSymbol(ctx0, uint32(nsym)); err != nil {
+			break
+		}
+	}
+
+	// generated calls
+	pickName := func() string {
+		if x.Bool("absentname", 1, 6) {
+			return "nosuchlabel"
+		}
+		return blk.names[x.Draw("name", len(blk.names))]
+	}
+	pickValue := func(name string) string {
+		vs := blk.values[name]
+		if len(vs) == 0 || x.Bool("absentvalue", 1, 4) {
+			return []string{"", "aaa", "host50:9100", "zzz"}[x.Draw("absent", 4)]
+		}
+		return vs[x.Draw("value", len(vs))]
+	}
+	plans := make([][]c16Call, nReaders)
+	for i := range plans {
+		n := x.Range("ncalls", 2, 6)
+		for j := 0; j < n; j++ {
+			c := c16Call{kind: x.Draw("call", 6)}
+			switch c.kind {
+			case 1:
+				c.name = pickName()
+			case 2:
+				c.name = pickName()
+				for k := x.Range("nvalues", 1, 3); k > 0; k-- {
+					c.values = append(c.values, pickValue(c.name))
+				}
+				sort.Strings(c.values) // PostingsOffsets expects sorted values
+			case 3:
+				c.name = pickName()
+				c.values = []string{pickValue(c.name)}
+			case 4:
+				c.off = uint32(x.Draw("symbol", nsym+2))
+			}
+			plans[i] = append(plans[i], c)
+		}
+	}
+	nClose := x.Draw("closes", 4)
+	closerPlan := make([]int, nClose) // 0 reader.Close, 1 pool.Close
+	for i := range closerPlan {
+		closerPlan[i] = x.Draw("closeop", 2)
+	}
+	x.Sample = map[string]any{"block_variant": variant, "series": len(c16Spec(variant)), "sampling": sampling, "lazy_download": lazyDownload,
+		"bucket_faults": faultsOn, "idle_timeout": idle.String(), "readers": nReaders, "closer_actions": nClose}
+
+	dir := filepath.Join(x.TempDir(), "headers")
+	answers, reloads := 0, 0
+	x.Bubble("c16", func(s *simkit.Sim) {
+		ctx, cancel := context.WithCancel(context.Background())
+		defer cancel()
+		bkt := &c16Bucket{InMemBucket: raw}
+		if faultsOn {
+			bkt.s = s
+			s.PlanRates([]string{"err:bucket:getrange"}, []int{0, 60, 200})
+		}
+		reg := prometheus.NewRegistry()
+		dl := indexheader.AlwaysEagerDownloadIndexHeader
+		if lazyDownload {
+			dl = indexheader.AlwaysLazyDownloadIndexHeader
+		}
+		pool := indexheader.NewReaderPool(log.NewNopLogger(), true, idle, indexheader.NewReaderPoolMetrics(reg), dl)
+		poolClosed := false
+		closePool := func() {
+			if !poolClosed {
+				poolClosed = true
+				pool.Close()
+			}
+		}
+		defer closePool()
+		rd, err := pool.NewBinaryReader(ctx, log.NewNopLogger(), bkt, dir, blk.id, sampling, blk.m)
+		if err != nil {
+			x.Troublef("c16: pool.NewBinaryReader: %v", err)
+			return
+		}
+		defer rd.Close()
+		treg := &taskReg{}
+		installYield(ctx, s, treg, nil)
+		defer verifhook.Set(nil)
+		s.Delays = []time.Duration{idle / 10, idle + idle/10, 3 * idle}
+
+		var mu sync.Mutex
+		for i := 0; i < nReaders; i++ {
+			i := i
+			name := fmt.Sprintf("reader%d", i)
+			s.Go(name, func() {
+				debug.SetPanicOnFault(true)
+				treg.register(name)
+				defer treg.unregister()
+				for _, c := range plans[i] {
+					if s.Park(ctx, s.OpID(name, "next")) != nil {
+						return
+					}
+					want := c16Render(c16Do(ctx, ref, c))
+					v, err := c16Do(ctx, rd, c)
+					got := c16Render(v, err)
+					s.Note("%s %s -> %s", name, c, got)
+					if got == want {
+						mu.Lock()
+						answers++
+						mu.Unlock()
+						continue
+					}
+					if err != nil {
+						switch {
+						case strings.Contains(err.Error(), "concurrently unloaded"):
+							s.Probe("c16.err_unloaded_while_loading")
+							continue
+						case faultsOn && errors.Is(err, errC16Injected):
+							s.Probe("c16.err_injected_load_failure")
+							continue
+						}
+						// an error nobody injected and that is not the documented unload race: the harness
+						// cannot tell whose fault it is
+						x.Troublef("c16: %s %s returned an unexpected error: %v (always-loaded reader: %s)", name, c, err, want)
+						continue
+					}
+					s.Violate("same-answer-as-always-loaded", "wrong-answer:"+c.method(), "%s %s returned %s; an always-loaded BinaryReader over the same index returns %s", name, c, got, want)
+				}
+			})
+		}
+		if nClose > 0 {
+			s.Go("closer", func() {
+				for k, op := range closerPlan {
+					if s.Park(ctx, s.OpID("closer", "next")) != nil {
+						return
+					}
+					if op == 1 {
+						s.Note("closer pool.Close #%d", k)
+						closePool()
+					} else {
+						err := rd.Close()
+						s.Note("closer reader.Close #%d -> %v", k, err)
+					}
+				}
+			})
+		}
+		s.Loop()
+		if s.Stuck() {
+			x.Troublef("c16: scheduler stuck, parked=%v", s.ParkedIDs())
+		}
+		loads, unloads := c16Counter(reg, "indexheader_lazy_load_total"), c16Counter(reg, "indexheader_lazy_unload_total")
+		x.ProbeN("c16.loads", loads)
+		x.ProbeN("c16.unloads", unloads)
+		if loads > 1 {
+			reloads = loads - 1
+			x.Probe("c16.reloaded_after_unload")
+		}
+	})
+	x.ProbeN("c16.answers", answers)
+	x.Nontrivial = answers > 0 && reloads > 0
+}
+
+func c16Counter(reg *prometheus.Registry, name string) int {
+	mfs, err := reg.Gather()
+	if err != nil {
+		return 0
+	}
+	for _, mf := range mfs {
+		if mf.GetName() == name && mf.GetType() == dto.MetricType_COUNTER {
+			n := 0.0
+			for _, m := range mf.Metric {
+				n += m.GetCounter().GetValue()
+			}
+			return int(n)
+		}
+	}
+	return 0
+}
